@@ -2,6 +2,7 @@
 """Regenerates the `fixed` list of known_findings.json from /repo's "fix:" commits."""
 import json, subprocess
 PROP = {
+"GraphQL arguments declared after":"C19",
 "discriminated unions are rejected under coercion":"C13",
 "dependencies of validators calling mutually recursive":"C10",
 "validators depending on an invalid aliased":"C10","a key named like a flattened":"C01","coercion of a Literal with values of several types":"C14",
